@@ -47,7 +47,9 @@ listen_dep  yes      Only passive communication mode
 import nfc.clf
 from . import device
 
+import os
 import time
+import errno
 import struct
 import operator
 from functools import reduce
@@ -923,6 +925,19 @@ class Device(device.Device):
         return 290
 
     def send_cmd_recv_rsp(self, target, data, timeout):
+        try:
+            data = self._send_cmd_recv_rsp(target, data, timeout)
+        except StatusError as error:
+            # A configuration command was refused, that is a host
+            # link or chip problem and not an RF error.
+            log.error(error)
+            data = None
+        if data is None:
+            # no proper response frame from the chipset
+            raise IOError(errno.EIO, os.strerror(errno.EIO))
+        return data
+
+    def _send_cmd_recv_rsp(self, target, data, timeout):
         if timeout:
             timeout_msec = max(min(int(timeout * 1000), 0xFFFF), 1)
         else:
@@ -961,6 +976,8 @@ class Device(device.Device):
         # (indistinguishable from a real crc error). We thus had to
         # switch off the crc check and do it here.
         data = self.chipset.in_comm_rf(data, timeout_msec)
+        if data is None:
+            return None
         if len(data) > 2 and self.check_crc_a(data) is False:
             raise nfc.clf.TransmissionError("crc_a check error")
         return data[:-2] if len(data) > 2 else data
